@@ -453,6 +453,92 @@ def rule_enum_sequence(chk):
             bad = "enumerator list %s: the enumerators are registered with types %s, their constants have types %s" % (spec, tys, [KIND_TY[k_] for k_, _v in want])
         chk.ob(key, bad is None, bad or "values %s" % (got,), where(fn), sample={"list": lname})
 
+
+def rule_array_dimension(chk):
+    """The length of a declared array is the value of its size expression: the typer's parse_declarator walked on
+    `x[<constant>]` (the expression parser and the evaluator are stand-ins that hand over the constant; if the function
+    wraps the expression in a conversion first, the stand-in evaluator applies that conversion the way evaluate_cast does,
+    i.e. modulo 2^32). A size that is negative, fractional or zero is refused; any other size, up to 64 bits, becomes the
+    array length unchanged."""
+    import interp as I
+    f = chk.facts
+    fn = f.fn("parse_declarator", "rssl_typer")
+    if not fn:
+        return
+    ok = lambda v: I.Enum("Result", "Ok", {"0": v})
+    opt = lambda v: I.Enum("Option", "None") if v is None else I.Enum("Option", "Some", {"0": v})
+    loc = lambda v: I.Enum("Located", None, {"node": v, "location": I.Opaque("location")})
+    tid = lambda n: I.Enum("TypeId", None, {"0": n})
+
+    def deref(v):
+        return v.get() if isinstance(v, I.Ref) else v
+    cases = [("IntLiteral", 4), ("IntLiteral", -1), ("Int32", -2), ("UInt32", 7), ("IntLiteral", 0), ("IntLiteral", 4294967296 + 3), ("IntLiteral", 4294967295), ("FloatLiteral", 2.5), ("Float32", 3.0),
+             ("Bool", True), ("Int32", 2147483647)]
+    bad = None
+    n = 0
+    for kind, val in cases:
+        made = []
+
+        def evaluate(a):
+            e = deref(a[0])
+            if isinstance(e, I.Enum) and e.variant == "Tagged":
+                return ok(e.fields["c"])
+            # the expression was wrapped (a conversion to uint): evaluate it the way evaluate_cast does
+            inner = [x for x in ([e] + list(e.fields.values())) if isinstance(x, I.Enum) and x.variant == "Tagged"]
+            def find(v):
+                if isinstance(v, I.Enum):
+                    if v.variant == "Tagged":
+                        return v
+                    for x in v.fields.values():
+                        r_ = find(x)
+                        if r_ is not None:
+                            return r_
+                elif isinstance(v, (list, tuple)):
+                    for x in v:
+                        r_ = find(x)
+                        if r_ is not None:
+                            return r_
+                return None
+            t = find(e)
+            if t is None:
+                raise I.Unknown("array size expression not recognisable")
+            c = t.fields["c"]
+            v_ = c.fields["0"]
+            return ok(I.Enum("Constant", "UInt32", {"0": int(v_) % (1 << 32)}))
+        ext = {"parse_expr": lambda a: ok((I.Enum("Expression", "Tagged", {"c": I.Enum("Constant", kind, {"0": val})}), I.Enum("ExpressionType", None, {"0": tid(9), "1": I.Enum("ValueType", "Rvalue")}))),
+               "evaluate_constexpr": evaluate,
+               "ImplicitConversion::find": lambda a: ok(I.Enum("ImplicitConversion", None, {"tag": "to uint"})),
+               "ImplicitConversion::apply": lambda a: I.Enum("Expression", "Cast", {"0": tid(4), "1": deref(a[1])}),
+               "to_rvalue": lambda a: I.Enum("ExpressionType", None, {"0": deref(a[0]), "1": I.Enum("ValueType", "Rvalue")}),
+               "TypeRegistry::register_type": lambda a: (made.append(deref(a[1])) or tid(100 + len(made)))}
+        name = I.Enum("ScopedIdentifier", None, {"base": I.Enum("ScopedIdentifierBase", "Relative"), "identifiers": [loc("x")]})
+        decl = I.Enum("Declarator", "Array", {"0": I.Enum("ArrayDeclarator", None, {"inner": I.Enum("Declarator", "Identifier", {"0": name, "1": []}), "array_size": opt(loc(I.Enum("Expression", "Literal", {"0": I.Enum("Literal", "IntUntyped", {"0": 0})}))),
+                                                                                        "attributes": []})})
+        ctx = I.Enum("Context", None, {"module": I.Enum("Module", None, {"type_registry": I.Opaque("type registry")})})
+        try:
+            r = I.Interp(f, max_depth=8, extern=ext).apply(fn, [decl, tid(3), opt(None), False, ctx])
+        except I.Unknown as e:
+            if "panicking" in str(e):
+                bad = bad or "declaring `x[%s]` aborts (%s)" % (val, str(e)[:60])
+                continue
+            chk.unreadable("C13.array-size/value", "the typer's parse_declarator on `x[<constant>]`", str(e)[:100], where(fn))
+            return
+        n += 1
+        arrays = [m for m in made if isinstance(m, I.Enum) and m.variant == "Array"]
+        accepted = isinstance(r, I.Enum) and r.variant == "Ok"
+        length = None
+        if accepted and arrays:
+            l_ = arrays[-1].fields.get("1")
+            length = l_.fields["0"] if isinstance(l_, I.Enum) and l_.variant == "Some" else None
+        valid = isinstance(val, int) and not isinstance(val, bool) and 0 < val < (1 << 64) or (val is True)
+        want = int(val) if valid else None
+        if accepted and length != want and not bad:
+            bad = "`x[%s]` (a %s constant) is accepted as an array of length %s%s" % (val, kind, length, "; its size expression has the value %s" % want if want is not None else
+                                                                                      ": the size is not a positive integer and must be refused")
+        elif not accepted and want is not None and not bad:
+            bad = "`x[%s]` (a %s constant) is refused" % (val, kind)
+    chk.ob("C13.array-size/value", bad is None, bad or "%d size constants: the array length is the constant's value, or the declaration is refused" % n, where(fn), sample={"cases": n})
+
 def run(chk):
     f = chk.facts
     ev = chk.anchor("C13.anchor/evaluate_operator", f.fn("evaluate_operator", TY), "evaluate_operator")
@@ -473,6 +559,7 @@ def run(chk):
     rule_to_uint64(chk)
     rule_enum_values(chk)
     rule_enum_sequence(chk)
+    rule_array_dimension(chk)
 
 
 def outer_match(fn, adt):
